@@ -50,7 +50,10 @@ CORPUS = [
 ]
 
 
-def check_texts(ctx: core.Ctx, texts: list[str], stream: str, envs: list[dict[str, Any]] | None = None) -> None:
+def check_texts(ctx: core.Ctx, texts: list[str], stream: str, envs: list[dict[str, Any]] | None = None,
+                history: list[str] | None = None) -> None:
+    """`history`: marker texts parsed earlier in this process that the cases of this call may depend on (state kept between
+    calls); recorded in every witness and parsed again first by --replay"""
     from poetry.core.version.markers import parse_marker
     envs = envs or G.env_grid(ctx.rng, 26)
     eenc = [G.enc_env(e) for e in envs]
@@ -134,7 +137,8 @@ def check_texts(ctx: core.Ctx, texts: list[str], stream: str, envs: list[dict[st
                 if (x == "1") != tv:
                     key = (KNOWN_PFV2 if pfv2_list(t) else KNOWN_WS if ws_literal(t) else
                            KNOWN_NOTIN if two_notin_alternatives(t) else f"eval:{t}")
-                    ctx.violate(key, f"{t!r} on {brief(envs[k])}: poetry-core {x == '1'}, reference {tv}", {"marker": t, "env": envs[k]})
+                    ctx.violate(key, f"{t!r} on {brief(envs[k])}: poetry-core {x == '1'}, reference {tv}",
+                                {"marker": t, "env": envs[k], **({"history": history} if history else {})})
                     break
                 ctx.count("oracle:compared")
     ctx.stream(stream, len(texts), dis)
@@ -244,6 +248,15 @@ def correspondence(ctx: core.Ctx) -> None:
     texts = gen_texts(ctx, ctx.budget(1000, 30000))
     for k in range(0, len(texts), 1500):
         check_texts(ctx, texts[k:k + 1500], "gen")
+    # a literal shared by a string variable and `extra` (one is a single value, the other a set of active extras): first
+    # the string leaves, then every pair of extra clauses over those literals, on environments with every set of extras
+    shared = ["linux", "a", "inotify"]
+    first = [f'sys_platform {op} "{v}"' for v in shared for op in ("==", "!=")] + [f'os_name == "{v}"' for v in shared]
+    pairs = [f'extra {o1} "{x}" {j} extra {o2} "{y}"' for x in shared for y in shared + ["b"] for o1 in ("==", "!=")
+             for o2 in ("==", "!=") for j in ("and", "or") if x != y]
+    ex_envs = G.envs(pys=["3.9.1"])
+    check_texts(ctx, first + pairs + [f"{a} and ({b})" for a, b in zip(first * 20, pairs)][: ctx.budget(40, 400)],
+                "shared-literal-extras", envs=ex_envs, history=first)
     if ctx.thorough:
         # every single leaf shape on the full grid
         leaves = sorted({G.leaf(ctx.rng) for _ in range(6000)})
@@ -277,5 +290,6 @@ def replay(ctx: core.Ctx, payload: dict[str, Any]) -> bool:
     w = payload.get("witness", payload)
     before = len(ctx.violations)
     envs = [w["env"]] if "env" in w else G.envs()
-    check_texts(ctx, [w["marker"]], "replay", envs=envs)
+    hist = [h for h in w.get("history", []) if isinstance(h, str)]
+    check_texts(ctx, hist + [w["marker"]], "replay", envs=envs, history=hist or None)
     return len(ctx.violations) > before
